@@ -10,5 +10,5 @@ CHECKS["C20"] = dict(
         "the velocity formula is only checked for particles that have a personal best while a swarm best exists (the classic algorithm is undefined otherwise)",
         "setBestParticlePositions is only enumerated together with clearCache (without it the cached values are stale by construction)",
     ],
-    jobs=[dict(harness="env_pso", variant="asan", args=[], quick=["--tier", "quick"], thorough=["--tier", "thorough"], deadline_quick=240, deadline_thorough=1140)],
+    jobs=[dict(harness="env_pso", variant="asan", args=[], quick=["--tier", "quick"], thorough=["--tier", "thorough"], deadline_quick=300, deadline_thorough=1140)],
 )
